@@ -25,6 +25,9 @@ TEMPLATES3 = [
     [["c1ccccc1", "c1ccc(F)cc1", "c1cc[nH]c1", "c1ccncc1", "c1ccoc1", "C1=CC=CC=C1", "c1ccc2ccccc2c1", "c1ccc2[nH]ccc2c1"], ["", "C", ".C"]],
     # multi-fragment and charged
     [["[Na+]", "[NH4+]", "C"], ".", ["[Cl-]", "[O-]C", "OC(=O)[O-]"], ["", ".O"]],
+    # fused aromatics whose fusion bond is written as an explicit closure (-2 on the opening label, the closing label, or both)
+    ["c1cc", ["2", "-2"], ["nc", "cc", "c[nH]", "co", "cs"], ["oc", "[nH]c", "sc", "cc", "c"], ["2", "-2"], "cc1"],
+    ["c1ccc", ["2", "-2"], "c(c1)", ["-c1ccccc1", "c1ccccc1", "Cc1ccccc1"], ["-2", "2"]],
     # three to five components of different sizes (component order must be kept)
     [["CCCC", "CCCCCC", "C", "CC(=O)[O-]"], ".", ["CCCC", "CCC", "C", "CC(=O)[O-]"], ".", ["C", "CC", "[Ca+2]"], ["", ".C", ".N.O"]],
 ]
